@@ -231,6 +231,10 @@ impl SimCore {
                     Err(e) => TxOut { res: Err(e), report: empty_report() },
                 }
             }
+            Op::Nanos { ns } => {
+                self.w.set_nanos(*ns);
+                noop_out()
+            }
             Op::Audit | Op::DryClaims | Op::EpochProbe | Op::Noop => noop_out(),
         }
     }
